@@ -38,7 +38,7 @@ ASSUMPTIONS = [
     "explicit vectors are exact eigenvectors up to rounding; implicit energies are >= 1 away from explicit ones",
     "in non-Hermitian mode implicit and complete-basis runs follow the same recurrences, so they are compared even inside the class of known finding K1",
 ]
-REQUIRED_CLASSES = {"all": ["solver=direct", "solver=kpm", "biorthogonal", "complex", "degenerate-explicit", "explicit-blocks=2", "selection", "sparse-h0", "params=2"]}
+REQUIRED_CLASSES = {"all": ["solver=direct", "solver=kpm", "biorthogonal", "complex", "degenerate-explicit", "explicit-blocks=2", "selection", "sparse-h0", "params=2", "kpm-default-options"]}
 
 
 @st.composite
@@ -138,7 +138,9 @@ def build_inputs(case, out=None):
     if c["solver"] == "direct_atol":
         opts = {"solver_options": {"eigenvalue_atol": 1e-9}}
     elif kpm:
-        so = {"atol": c["kpm_atol"]}
+        so = {"atol": c["kpm_atol"]} if c["kpm_atol"] is not None else {}
+        if c["kpm_atol"] is None:
+            labels.append("kpm-default-options")
         n_aux = min(c["n_aux"], n - nexp - 2) if c["solver"] == "kpm_aux" else 0
         if n_aux > 0:
             so["auxiliary_vectors"] = R_rest[:, :n_aux].copy()
@@ -231,7 +233,7 @@ def check_case(case, enforce_all=False):
                         dev = float(np.abs(ad - emb).max()) if emb.size else 0.0
                         warned = any(issubclass(w.category, RuntimeWarning) and "KPM" in str(w.message) for w in wlist)
                         if kpm:
-                            tol = 1e3 * c["kpm_atol"] * scale * (1 + sum(order)) ** 2
+                            tol = 1e3 * (c["kpm_atol"] or 1e-5) * scale * (1 + sum(order)) ** 2
                             if warned:
                                 out.labels.append("kpm-convergence-warning")
                                 continue
